@@ -4,6 +4,9 @@ package main
 
 import (
 	"fmt"
+	"os"
+	"regexp"
+	"strings"
 	"sort"
 	"sync"
 	"time"
@@ -43,8 +46,10 @@ type Violation struct {
 	File      string `json:"file,omitempty"`
 }
 
+var digitsRe = regexp.MustCompile(`[0-9]+`)
+
 func (v *Violation) Signature() string {
-	return v.Harness + "|" + v.Kind + "|" + v.Label + "|" + v.Site
+	return v.Harness + "|" + v.Kind + "|" + digitsRe.ReplaceAllString(v.Label, "N") + "|" + v.Site
 }
 
 type Witness struct {
@@ -92,6 +97,7 @@ type Explorer struct {
 	solver     SolverStats
 	opts       ExploreOpts
 	notes      map[string]int
+	forkSites  map[string]int
 	opaque     map[string]int
 	assertQueries, assertUnsat int64
 }
@@ -118,6 +124,7 @@ func NewExplorer(prog *Program, harness string, tier int, opts ExploreOpts) *Exp
 	ex.stats.Unsupported = make(map[string]int)
 	ex.stats.Labels = make(map[string]int64)
 	ex.notes = make(map[string]int)
+	ex.forkSites = make(map[string]int)
 	ex.opaque = make(map[string]int)
 	ex.maxPaths = opts.MaxPaths
 	if opts.Timeout > 0 {
@@ -249,6 +256,7 @@ type Path struct {
 	yieldForks   bool
 	inInit       int
 	nchecks      int
+	merges       int
 	notes        []string
 	lockMon      func(g *Goroutine, key *Value, kind byte)
 }
@@ -278,6 +286,12 @@ func (p *Path) record(d Decision) {
 }
 
 func (p *Path) sibling(d Decision) {
+	if p.ex.opts.Trace && p.sched != nil && p.sched.cur != nil && p.sched.cur.curFr != nil {
+		site := p.sched.cur.curFr.stableSite()
+		p.ex.mu.Lock()
+		p.ex.forkSites[site]++
+		p.ex.mu.Unlock()
+	}
 	np := make([]Decision, len(p.trace)+1)
 	copy(np, p.trace)
 	np[len(p.trace)] = d
@@ -332,6 +346,9 @@ func (p *Path) decideBool(c *Term) bool {
 					p.ex.noteUnknown()
 				}
 				// both feasible: take true now, false later
+				if p.ex.opts.Trace && p.ex.stats.Forks < 400 && p.sched.cur.curFr != nil && strings.Contains(p.sched.cur.curFr.fn.String(), os.Getenv("FORKDBG")) {
+					println("FORK on", c.String())
+				}
 				p.sibling(Decision{'b', 0, false})
 				val = true
 				p.assert(c)
